@@ -577,25 +577,53 @@ fn wal_scan(dep: &str) {
         }
         v
     };
-    // `pub fn` / `pub async fn` / (traits: `fn`) names inside the block that starts with a line beginning with `head`
-    let fns = |src: &str, head: &str, all: bool| -> Vec<String> {
+    // `pub fn` / `pub async fn` / (traits: `fn`) names of a TYPE: every inherent `impl … Type … {` block of the file
+    // (generics, bounds and `where` clauses in any spelling; an impl split into several blocks; trait impls
+    // `impl X for Type` are not entry points of the type) or, for `all`, the `pub trait Type` block
+    let fns = |src: &str, ty: &str, all: bool| -> Vec<String> {
         let mut v = Vec::new();
         let mut inside = false;
+        let is_head = |line: &str| -> bool {
+            if all {
+                return line.starts_with(&format!("pub trait {}", ty)) && !line[format!("pub trait {}", ty).len()..].starts_with(|c: char| c.is_alphanumeric() || c == '_');
+            }
+            if !line.starts_with("impl") || line.contains(" for ") {
+                return false;
+            }
+            // skip the generic parameter list of the impl itself
+            let rest = &line[4..];
+            let rest = if rest.starts_with('<') {
+                let mut depth = 0i32;
+                let mut end = 0usize;
+                for (i, c) in rest.char_indices() {
+                    if c == '<' { depth += 1; }
+                    if c == '>' { depth -= 1; if depth == 0 { end = i + 1; break; } }
+                }
+                &rest[end..]
+            } else {
+                rest
+            };
+            let rest = rest.trim_start();
+            rest.starts_with(ty) && !rest[ty.len()..].starts_with(|c: char| c.is_alphanumeric() || c == '_')
+        };
         for line in src.lines() {
-            if line.starts_with(head) {
+            if !inside && is_head(line) {
                 inside = true;
                 continue;
             }
             if inside {
                 if line.starts_with('}') {
-                    break;
+                    inside = false;
+                    continue;
                 }
                 let t = line.trim_start();
                 let indent = line.len() - t.len();
                 if indent == 4 && (t.starts_with("pub fn ") || t.starts_with("pub async fn ") || (all && (t.starts_with("fn ") || t.starts_with("async fn ")))) {
                     let after = t.split("fn ").nth(1).unwrap_or("");
                     let id: String = after.chars().take_while(|c| c.is_alphanumeric() || *c == '_').collect();
-                    v.push(id);
+                    if !v.contains(&id) {
+                        v.push(id);
+                    }
                 }
             }
         }
@@ -657,23 +685,75 @@ fn wal_scan(dep: &str) {
     push("WAL_MESSAGES", variants(&actor, "WalMessage"));
     push("FSYNC_POLICIES", variants(&config, "FsyncPolicy"));
     push("WAL_ERRORS", variants(&store, "WalError"));
-    push("WAL_HANDLE_FNS", fns(&actor, "impl WalActorHandle", false));
+    push("WAL_HANDLE_FNS", fns(&actor, "WalActorHandle", false));
     push("WAL_CONFIG_FIELDS", fields(&config, "WalConfig"));
-    push("WAL_CONFIG_FNS", fns(&config, "impl WalConfig", false));
-    push("WAL_STORE_TRAIT_FNS", fns(&store, "pub trait WalStore", true));
-    push("WAL_WRITER_TRAIT_FNS", fns(&store, "pub trait WalFileWriter", true));
-    push("WAL_ROTATOR_FNS", fns(&wal, "impl<S: WalStore> WalRotator<S>", false));
-    push("WAL_ENTRY_FNS", fns(&wal, "impl WalEntry", false));
-    push("WAL_READER_FNS", fns(&wal, "impl WalReader", false));
-    push("WAL_WRITER_FNS", fns(&wal, "impl<W: WalFileWriter> WalWriter<W>", false));
-    push("SEGMENT_READER_FNS", fns(&seg, "impl SegmentReader", false));
-    push("SEGMENT_WRITER_FNS", fns(&seg, "impl SegmentWriter", false));
+    push("WAL_CONFIG_FNS", fns(&config, "WalConfig", false));
+    push("WAL_STORE_TRAIT_FNS", fns(&store, "WalStore", true));
+    push("WAL_WRITER_TRAIT_FNS", fns(&store, "WalFileWriter", true));
+    push("WAL_ROTATOR_FNS", fns(&wal, "WalRotator", false));
+    push("WAL_ENTRY_FNS", fns(&wal, "WalEntry", false));
+    push("WAL_READER_FNS", fns(&wal, "WalReader", false));
+    push("WAL_WRITER_FNS", fns(&wal, "WalWriter", false));
+    push("SEGMENT_READER_FNS", fns(&seg, "SegmentReader", false));
+    push("SEGMENT_WRITER_FNS", fns(&seg, "SegmentWriter", false));
     push("SEGMENT_ERRORS", variants(&seg, "SegmentError"));
-    push("CHECKPOINT_READER_FNS", fns(&chk, "impl<'a> CheckpointReader<'a>", false));
-    push("CHECKPOINT_WRITER_FNS", fns(&chk, "impl CheckpointWriter", false));
+    push("CHECKPOINT_READER_FNS", fns(&chk, "CheckpointReader", false));
+    push("CHECKPOINT_WRITER_FNS", fns(&chk, "CheckpointWriter", false));
     push("CHECKPOINT_ERRORS", variants(&chk, "CheckpointError"));
     push("GOSSIP_MESSAGES", variants(&gossip, "GossipMessage"));
     push("CRDT_VARIANTS", variants(&crdt, "CrdtValue"));
+    // call sites of every scanned inherent pub fn OUTSIDE the file that defines it (non-test code): a NEW public
+    // fn that nothing in another module calls cannot reach a property and must not fail a check
+    {
+        fn walk(dir: &std::path::Path, acc: &mut Vec<PathBuf>) {
+            if let Ok(rd) = fs::read_dir(dir) {
+                for e in rd.flatten() {
+                    let p = e.path();
+                    if p.is_dir() {
+                        walk(&p, acc);
+                    } else if p.extension().map(|x| x == "rs").unwrap_or(false) {
+                        acc.push(p);
+                    }
+                }
+            }
+        }
+        let src_dir = PathBuf::from(dep).join("src");
+        println!("cargo:rerun-if-changed={}", src_dir.display());
+        let mut files = Vec::new();
+        walk(&src_dir, &mut files);
+        let texts: Vec<(String, String)> = files
+            .iter()
+            .map(|f| {
+                let t = fs::read_to_string(f).unwrap_or_default();
+                let t = t.split("#[cfg(test)]").next().unwrap_or("").to_string();
+                (f.strip_prefix(dep).map(|p| p.display().to_string()).unwrap_or_default(), t)
+            })
+            .collect();
+        let mut rows = Vec::new();
+        for (own, group, names) in [
+            ("src/streaming/wal_actor.rs", "WalActorHandle", fns(&actor, "WalActorHandle", false)),
+            ("src/streaming/wal_config.rs", "WalConfig.fn", fns(&config, "WalConfig", false)),
+            ("src/streaming/wal.rs", "WalRotator", fns(&wal, "WalRotator", false)),
+            ("src/streaming/wal.rs", "WalEntry", fns(&wal, "WalEntry", false)),
+            ("src/streaming/wal.rs", "WalReader", fns(&wal, "WalReader", false)),
+            ("src/streaming/wal.rs", "WalWriter", fns(&wal, "WalWriter", false)),
+            ("src/streaming/segment.rs", "SegmentReader", fns(&seg, "SegmentReader", false)),
+            ("src/streaming/segment.rs", "SegmentWriter", fns(&seg, "SegmentWriter", false)),
+            ("src/streaming/checkpoint.rs", "CheckpointReader", fns(&chk, "CheckpointReader", false)),
+            ("src/streaming/checkpoint.rs", "CheckpointWriter", fns(&chk, "CheckpointWriter", false)),
+        ] {
+            for n in names {
+                let pats = [format!(".{}(", n), format!("::{}(", n)];
+                let calls: usize = texts
+                    .iter()
+                    .filter(|(rel, _)| !rel.ends_with(own))
+                    .map(|(_, t)| pats.iter().map(|p| t.matches(p.as_str()).count()).sum::<usize>())
+                    .sum();
+                rows.push(format!("({:?}, {:?}, {})", group, n, calls));
+            }
+        }
+        out.push_str(&format!("pub const WAL_FN_EXTERNAL_CALLS: &[(&str, &str, usize)] = &[{}];\n", rows.join(", ")));
+    }
     out.push_str(&format!("pub const SRC_WAL_CHANNEL_CAPACITY: usize = {};\n", konst(&actor, "WAL_CHANNEL_CAPACITY")));
     out.push_str(&format!("pub const SRC_SEGMENT_HEADER_SIZE: usize = {};\n", konst(&seg, "HEADER_SIZE")));
     out.push_str(&format!("pub const SRC_SEGMENT_FOOTER_SIZE: usize = {};\n", konst(&seg, "FOOTER_SIZE")));
